@@ -67,3 +67,21 @@ Proof.
   repeat match goal with |- context [if ?c then _ else _] => destruct c end;
     intros H; inversion H; auto.
 Qed.
+
+(* ---- the boolean oracle is the Prop-level specification ---- *)
+Lemma hdr_eqb_eq a b : hdr_eqb a b = true <-> a = b.
+Proof.
+  destruct a as [a1 a2 a3 a4 a5 a6 a7 a8], b as [b1 b2 b3 b4 b5 b6 b7 b8]. unfold hdr_eqb.
+  cbn [h_pad h_padsize h_marker h_pt h_seq h_ts h_ssrc h_csrc].
+  rewrite !andb_true_iff, !Z.eqb_eq, !Bool.eqb_true_iff, list_eqb_Z_eq. split.
+  - intros [[[[[[[-> ->] ->] ->] ->] ->] ->] ->]. reflexivity.
+  - intros H; inversion H; subst. tauto.
+Qed.
+
+Theorem is_resend_ofb_iff rtx rs rpt h pay h' pay' :
+  is_resend_ofb rtx rs rpt h pay h' pay' = true <-> is_resend_of rtx rs rpt h pay h' pay'.
+Proof.
+  unfold is_resend_ofb, is_resend_of. destruct rtx.
+  - rewrite !andb_true_iff, !Z.eqb_eq, negb_true_iff, Bool.eqb_true_iff, !list_eqb_Z_eq. tauto.
+  - rewrite andb_true_iff, hdr_eqb_eq, list_eqb_Z_eq. tauto.
+Qed.
